@@ -1,6 +1,3 @@
-// Euclid's function as the specification of gcd
-pub open spec fn sgcd(a: nat, b: nat) -> nat decreases b { if b == 0 { a } else { sgcd(b, a % b) } }
-
 // ---- ASSUMED (label A): the Lehmer update matrix (src/algorithms/gcd/matrix.rs) ----
 // Signs are implicit (matrix.rs): .4 == true means [ .0 -.1; -.2 .3 ], false means [ -.0 .1; .2 -.3 ].
 // `from(a, b)` for a >= b returns either the identity or a cofactor matrix of a non-empty run of Euclid steps on (a, b):
@@ -10,20 +7,6 @@ pub open spec fn sgcd(a: nat, b: nat) -> nat decreases b { if b == 0 { a } else 
 // This is the last sentence of property C12 plus the cofactor shape; the construction (from_u64, from_u64_prefix,
 // from_u128_prefix, Jebelean's conditions) is not under proof. Kani checks it at tiny sizes only (c10/c12).
 pub struct LehmerMatrix(pub u64, pub u64, pub u64, pub u64, pub bool);
-pub open spec fn maps(m: LehmerMatrix, a: int, b: int) -> (int, int) {
-    if m.4 { (m.0 as int * a - m.1 as int * b, m.3 as int * b - m.2 as int * a) }
-    else { (m.1 as int * b - m.0 as int * a, m.2 as int * a - m.3 as int * b) }
-}
-pub open spec fn is_identity(m: LehmerMatrix) -> bool { m.0 == 1 && m.1 == 0 && m.2 == 0 && m.3 == 1 && m.4 }
-pub open spec fn lehmer_ok(m: LehmerMatrix, a: int, b: int) -> bool {
-    let (c, d) = maps(m, a, b);
-    &&& 0 <= d <= c <= a
-    &&& d < b
-    &&& sgcd(c as nat, d as nat) == sgcd(a as nat, b as nat)
-    &&& m.0 as int * m.3 as int - m.1 as int * m.2 as int == (if m.4 { 1int } else { -1int })
-    &&& m.0 <= m.2
-    &&& m.1 <= m.3
-}
 impl PartialEqSpecImpl for LehmerMatrix {
     open spec fn obeys_eq_spec() -> bool { true }
     open spec fn eq_spec(&self, other: &Self) -> bool { *self == *other }
